@@ -25,11 +25,43 @@ SINGLE_TRIPLES = [
 ]
 
 MA_PLANS = [  # (domain, problem, sequential plan, agent names)
-    ("multi_agent_tests/sokoban_domain.pddl", "multi_agent_tests/sokoban_problem.pddl", "multi_agent_tests/sokoban_plan.txt", None),
-    ("multi_agent_tests/woodworking_domain.pddl", "multi_agent_tests/prob_woodworking_01.pddl", "multi_agent_tests/woodworking_plan.txt",
+    ("multi_agent_tests/sokoban_domain.pddl", "multi_agent_tests/sokoban_problem.pddl", "multi_agent_tests/sokoban_plan.txt",
+     ["player-01", "player-02"]),
+    ("multi_agent_tests/combined_domain.pddl", "multi_agent_tests/combined_problem.pddl", "multi_agent_tests/woodworking_plan.txt",
      ["glazer0", "grinder0", "highspeed-saw0", "immersion-varnisher0", "planer0", "saw0", "spray-varnisher0"]),
-    ("multi_agent_tests/depots_domain.pddl", "multi_agent_tests/depots_problem.pddl", "multi_agent_tests/depots_plan.txt", None),
+    ("multi_agent_tests/depots_domain.pddl", "multi_agent_tests/depots_problem.pddl", "multi_agent_tests/depots_plan.txt",
+     ["depot0", "depot1", "depot2", "depot3", "distributor0", "distributor1", "distributor2", "distributor3", "driver0",
+      "driver1", "driver2", "driver3"]),
+    ("multi_agent_tests/blocks_socs_experiment/original_domain.pddl", "multi_agent_tests/blocks_socs_experiment/original_problem_3.pddl",
+     "multi_agent_tests/blocks_socs_experiment/sol.txt", ["a1", "a2", "a3"]),
+    ("multi_agent_tests/satellite_numeric_multi_agent/metricSat.pddl", "multi_agent_tests/satellite_numeric_multi_agent/pfile010.pddl",
+     "multi_agent_tests/satellite_numeric_multi_agent/pfile010.solution", None),
 ]
+
+
+def load_ma_plan(i):
+    key = ("ma", i, repo())
+    if key in _cache:
+        return _cache[key]
+    d, p, s, agents = MA_PLANS[i]
+    out = {"name": s, "dom_text": _read(d), "prob_text": _read(p), "plan_text": _read(s), "agents": agents}
+    try:
+        D = pddl_reader.read_domain_text(out["dom_text"])
+        P = pddl_reader.read_problem_text(out["prob_text"], D)
+        out["D"], out["P"] = D, P
+        import re
+        calls = []
+        for m in re.finditer(r"\(([^()]+)\)", out["plan_text"]):
+            t = m.group(1).lower().split()
+            calls.append((t[0], t[1:]))
+        out["calls"] = calls
+        if agents is None:
+            out["agents"] = sorted(o for o, ty in P["objects"].items() if ty == "satellite")
+    except (pddl_reader.Unsupported, sexpr.Reject, KeyError, IndexError, ValueError) as e:
+        out["unsupported"] = f"{type(e).__name__}: {e}"
+    _cache[key] = out
+    return out
+
 
 WW_AGENTS = ["glazer0", "grinder0", "highspeed-saw0", "immersion-varnisher0", "planer0", "saw0", "spray-varnisher0"]
 TRAJECTORIES = [  # (domain, problem or None, trajectory, executing agents or None)
